@@ -13,6 +13,12 @@ PID = 'C14'
 RULE = ('histories of 8-40 steps on a single- or multi-phase stream (5 chemicals): reads of H, S, h, C, Cn, Cp, V, rho, mu, nu, kappa, alpha, Pr, sigma, epsilon, Hvap, MW, F_vol, z_mol/z_mass '
         'on the stream / its proxy / a linked stream / a phase view, interleaved with T=, P=, phase=, single-entry flow edits through mol/imol/imass/ivol/phase views, total-only changes '
         '(scale, F_mol=), composition-only changes, set-back-to-previous-value steps, mix_from, link/unlink, property-package reset, phase-set changes. '
+        'Added: cases without a proxy / dropping the proxy (so that package and phase-set changes happen late in a history), reads of Hnet, Hf, LHV, HHV, z_vol, P_vapor, phase fractions, '
+        'get_normalized_mol/mass/vol and get_concentration and of Cp, alpha, nu, Pr, z_mol, z_mass on multi-phase streams, a flow_proxy reader; mutators H=, S=, h=, Hnet=, copy_like, copy_flow, '
+        'copy_thermal_condition, copy_phase, split_to, separate_out, += -= *= /=, receive_vent, set_flow, set_total_flow, F_mass=, F_vol=, reset_flow, get_data/set_data (back to an earlier state), '
+        'empty_negative_flows, mol= / mol[:]=, thermal_condition.T/P=, temporary(), temporary_phase(), vle, lle; multi-phase composition-only (swap inside a phase, swap between phases) and phase-only (collapse) changes; '
+        'reverse links s.link_with(other, any flag subset), s.unlink() and s.reset_cache() with a live proxy; empty / fill (same composition, other total) / scale(0); '
+        'edits through a phase view (imass, ivol, scale, F_mol=, empty); mixing with an energy balance. '
         'non-trivial = a read that follows >=1 mutation since the previous read of the same property by the same reader; distinct = hash of (history prefix, read)')
 MIN_NONTRIVIAL = {'quick': 1500, 'thorough': 50000}
 ASSUMPTIONS = ['the fresh twin is built through the public constructors from the observable state of the reader', 'reads that raise on the fresh twin as well are counted, not judged']
@@ -20,6 +26,14 @@ IDS = ('Water', 'Ethanol', 'Methanol', 'Octane', 'Acetone')
 PERM = ('Octane', 'Water', 'Acetone', 'Ethanol', 'Methanol')
 PROPS = ['H', 'S', 'h', 'C', 'Cn', 'Cp', 'V', 'rho', 'mu', 'nu', 'kappa', 'alpha', 'Pr', 'sigma', 'epsilon', 'Hvap', 'MW', 'F_vol', 'z_mol', 'z_mass', 'F_mass']
 MULTI_PROPS = ['H', 'S', 'h', 'C', 'MW', 'F_vol', 'F_mass', 'Hvap', 'sigma', 'epsilon', 'V', 'Cn', 'rho', 'mu', 'kappa']
+# added: derived quantities (also on multi-phase streams) and call-style reads
+PROPS2 = ['Hnet', 'Hf', 'LHV', 'HHV', 'z_vol', 'P_vapor', 'vapor_fraction', 'liquid_fraction', 'solid_fraction', 'get_normalized_mol', 'get_normalized_mass', 'get_normalized_vol', 'get_concentration']
+MULTI_PROPS2 = ['Cp', 'alpha', 'nu', 'Pr', 'z_mol', 'z_mass', 'Hnet', 'Hf', 'LHV', 'HHV', 'z_vol', 'vapor_fraction', 'liquid_fraction', 'solid_fraction', 'get_normalized_mol', 'get_normalized_mass',
+                'get_normalized_vol', 'get_concentration']
+MUTATORS = ['H=', 'S=', 'h=', 'Hnet=', 'H=0', 'copy_like', 'copy_flow', 'copy_thermal_condition', 'copy_phase', 'split_to', 'separate_out', 'iadd', 'isub', 'imul', 'idiv', 'receive_vent', 'set_flow',
+            'set_total_flow', 'F_mass=', 'F_vol=', 'reset_flow', 'empty_negative_flows', 'mol=', 'mol[:]=', 'tc.T=', 'tc.P=', 'temporary', 'vle', 'lle']
+SOLVER_MUTATORS = ('H=', 'H=0', 'S=', 'h=', 'Hnet=', 'separate_out', 'isub', 'iadd', 'receive_vent', 'vle', 'lle', 'mixE', 'split_to')
+PROGRAMMING_ERRORS = (AttributeError, TypeError, NameError, KeyError, IndexError, AssertionError, UnboundLocalError)
 
 _calls = {'n': 0}
 _installed = False
@@ -47,7 +61,10 @@ def install_counter():
 
 
 def required(tier):
-    return ['fresh', 'memo-hit', 'recomputed', 'reader:proxy', 'reader:linked', 'reader:view', 'reader:self', 'multi-phase', 'set-back']
+    return ['fresh', 'memo-hit', 'recomputed', 'reader:proxy', 'reader:linked', 'reader:view', 'reader:self', 'multi-phase', 'set-back',
+            # added
+            'reader:fproxy', 'no-proxy-case', 'late:package', 'late:phases', 'read:derived', 'read:multi-derived', 'read:empty-state', 'mcomp:swap-row', 'mcomp:swap-phase', 'collapse', 'link-rev', 'self-unlink',
+            'reset_cache', 'empty', 'fill', 'scale0', 'view-mut', 'mixE', 'restore'] + ['mut:' + m for m in MUTATORS]
 
 
 def twin_of(s):
@@ -68,19 +85,35 @@ def gen_case(rng):
     def flows(): return [0.0 if rng.random() < 0.3 else round(10 ** rng.uniform(-1, 3), 4) for _ in range(n)]
     start = {'multi': multi, 'T': round(rng.uniform(295, 350), 2), 'P': rng.choice([101325., 5e4, 3e5]), 'phase': rng.choice('lg'),
              'phases': rng.choice(['lg', 'lL', 'glL']), 'flows': [flows() for _ in range(3)], 'proxy_at': rng.randrange(0, 6), 'link_flags': [True, rng.random() < 0.7, rng.random() < 0.7]}
+    # added: histories without a proxy (property-package and phase-set changes can then happen anywhere in the history)
+    if rng.random() < 0.4: start['proxy_at'] = None
     steps = []
     Ts = [start['T'], round(rng.uniform(295, 350), 2), round(rng.uniform(295, 350), 2)]
     for _ in range(rng.randrange(8, 41)):
-        t = rng.choices(['read', 'read', 'read', 'T', 'P', 'phase', 'flow', 'scale', 'F_mol', 'comp', 'mix', 'link', 'unlink', 'package', 'phases', 'refill', 'Tback'],
-                        [10, 10, 10, 4, 2, 3, 6, 2, 1, 2, 1, 1, 1, 1, 2, 1, 3])[0]
+        t = rng.choices(['read', 'read', 'read', 'T', 'P', 'phase', 'flow', 'scale', 'F_mol', 'comp', 'mix', 'link', 'unlink', 'package', 'phases', 'refill', 'Tback',
+                         'read2', 'mut', 'mcomp', 'collapse', 'link-rev', 'self-unlink', 'reset_cache', 'mk-fproxy', 'drop-proxy', 'empty', 'fill', 'scale0', 'view-mut', 'mixE', 'snapshot', 'restore'],
+                        [10, 10, 10, 4, 2, 3, 6, 2, 1, 2, 1, 1, 1, 1, 2, 1, 3,
+                         22, 8, 2, 0.5, 1, 0.7, 0.7, 2, 0.7, 0.7, 1.2, 0.4, 2, 0.7, 1.5, 1.5])[0]
         st = {'t': t, 'k': rng.randrange(1000), 'i': rng.randrange(n), 'v': round(10 ** rng.uniform(-1, 3), 4)}
         if t == 'read': st['p'] = rng.choice(PROPS); st['who'] = rng.choice(['self', 'self', 'proxy', 'linked', 'view'])
+        if t == 'read2':
+            st['t'] = 'read'; st['p'] = rng.choice(PROPS2 + MULTI_PROPS2 + PROPS[:8]); st['who'] = rng.choice(['self', 'self', 'proxy', 'linked', 'view', 'fproxy'])
         if t in ('T', 'Tback'): st['v'] = rng.choice(Ts) if t == 'Tback' or rng.random() < 0.5 else round(rng.uniform(295, 350), 2)
         if t == 'P': st['v'] = rng.choice([101325., 5e4, 3e5])
         if t == 'phase': st['v'] = rng.choice('lg')
         if t == 'flow': st['via'] = rng.choice(['mol', 'imol', 'imass', 'ivol', 'view', 'proxy', 'linked'])
         if t == 'phases': st['v'] = rng.choice(['lg', 'lL', 'glL', 'gL'])
         if t in ('T', 'P', 'Tback'): st['via'] = rng.choice(['self', 'proxy', 'linked', 'view'])
+        if t == 'mut':
+            st['m'] = rng.choice(MUTATORS)
+            if st['m'] in ('vle', 'lle') and rng.random() < 0.6: st['m'] = rng.choice(MUTATORS[:27])     # the equilibrium solvers are slow: drawn less often
+            st['T'] = rng.choice(Ts) if rng.random() < 0.5 else round(rng.uniform(295, 350), 2)
+            st['P'] = rng.choice([101325., 5e4, 3e5]); st['eb'] = rng.random() < 0.5
+        if t == 'mcomp': st['form'] = rng.choice(['swap-row', 'swap-phase'])
+        if t == 'collapse': st['v'] = rng.choice('lg')
+        if t == 'link-rev': st['flags'] = [rng.random() < 0.6, rng.random() < 0.6, rng.random() < 0.6]; st['T'] = rng.choice(Ts); st['P'] = rng.choice([101325., 5e4, 3e5])
+        if t == 'view-mut': st['form'] = rng.choice(['imass', 'ivol', 'scale', 'F_mol', 'empty'])
+        if t == 'mixE': st['T'] = round(rng.uniform(295, 350), 2)
         steps.append(st)
     # directed pattern that defeats key comparison: reader A reads at state a, reader B reads at state b, back to a, A reads again
     if rng.random() < 0.5:
@@ -93,9 +126,17 @@ def gen_case(rng):
             return {'t': what, 'k': 0, 'i': 0, 'v': v, 'via': 'self'}
         pat = [mut(a), {'t': 'read', 'k': 0, 'i': 0, 'v': 0, 'p': prop, 'who': A}, mut(b), {'t': 'read', 'k': 0, 'i': 0, 'v': 0, 'p': prop, 'who': B},
                mut(a), {'t': 'read', 'k': 0, 'i': 0, 'v': 0, 'p': prop, 'who': A}]
-        at = rng.randrange(start['proxy_at'] + 1, max(start['proxy_at'] + 2, len(steps)))
+        pa = start['proxy_at'] if start['proxy_at'] is not None else 0
+        at = rng.randrange(pa + 1, max(pa + 2, len(steps)))
         if rng.random() < 0.5: steps.insert(min(at, len(steps)), {'t': 'link', 'k': 0, 'i': 0, 'v': 0}); at += 1
         steps[at:at] = pat
+    # added directed pattern: read at a non-empty state, empty, read, restore the same composition with another total, read
+    if rng.random() < 0.15:
+        prop = rng.choice(['H', 'S', 'C', 'V', 'h', 'rho', 'Cn', 'F_vol', 'Hvap'])
+        rd = {'t': 'read', 'k': 0, 'i': 0, 'v': 0, 'p': prop, 'who': 'self'}
+        at = rng.randrange(0, len(steps) + 1)
+        steps[at:at] = [dict(rd), {'t': rng.choice(['empty', 'scale0']), 'k': 0, 'i': 0, 'v': 1.0}, dict(rd), {'t': 'fill', 'k': 0, 'i': 0, 'v': rng.choice([1.0, 2.5, 0.4])}, dict(rd)]
+    if rng.random() < 0.03: steps.append({'t': 'mut', 'm': 'temporary_phase', 'k': 0, 'i': 0, 'v': 1.0, 'T': Ts[0], 'P': 101325., 'eb': False})
     return {'start': start, 'steps': steps}
 
 
@@ -112,8 +153,18 @@ def build(start, th):
     return s
 
 
+CALL_IDS = ('Water', 'Ethanol', 'Octane')
+
+
 def value_of(s, p):
-    v = getattr(s, p)
+    if p.startswith('get_'):
+        # added: call-style reads
+        if p == 'get_concentration':
+            v = s.get_concentration(s.phases[0], CALL_IDS[:2]) if isinstance(s, tmo.MultiStream) else s.get_concentration(CALL_IDS[:2])
+        else:
+            v = getattr(s, p)(CALL_IDS)
+    else:
+        v = getattr(s, p)
     if hasattr(v, 'to_array'): v = v.to_array()
     return v
 
@@ -125,12 +176,117 @@ def equal(a, b):
     return bool(np.all(np.abs(a - b) <= 1e-10 * np.maximum(np.abs(a), np.abs(b)) + 1e-300))
 
 
+def perturbed_twin(s, st):
+    """a second stream of the same class, package and phases as s with other T, P and flows (deterministic in the step)."""
+    o = twin_of(s)
+    o.T = st['T']; o.P = st['P']
+    o.imol.data *= 0.5 + (st['k'] % 7) / 4.
+    i = IDS[st['i']]
+    if isinstance(o, tmo.MultiStream): o.imol[o.phases[st['k'] % len(o.phases)], i] = st['v']
+    else: o.imol[i] = st['v']
+    return o
+
+
+def apply_mutator(s, st, rec):
+    """added: the remaining public mutators. Returns False when the step was not applicable (nothing changed)."""
+    m = st['m']; k = st['k']; v = st['v']
+    multi = isinstance(s, tmo.MultiStream)
+    dT = (k % 21) - 10.
+    i = IDS[st['i']]
+    ph = s.phases[k % len(s.phases)] if multi else None
+    if m == 'H=': s.H = s.H + s.C * dT
+    elif m == 'H=0': s.H = 0.        # on an empty stream: the documented silent return
+    elif m == 'S=': s.S = s.S + s.C * 0.003 * dT
+    elif m == 'h=':
+        if not s.F_mol: return False
+        s.h = s.h + s.C / s.F_mol * dT
+    elif m == 'Hnet=': s.Hnet = s.Hnet + s.C * dT
+    elif m == 'copy_like': s.copy_like(perturbed_twin(s, st))
+    elif m == 'copy_flow': s.copy_flow(perturbed_twin(s, st))
+    elif m == 'copy_thermal_condition': s.copy_thermal_condition(perturbed_twin(s, st))
+    elif m == 'copy_phase':
+        if multi: return False
+        o = perturbed_twin(s, st); o.phase = 'g' if s.phase == 'l' else 'l'
+        s.copy_phase(o)
+    elif m == 'split_to':
+        o = perturbed_twin(s, st); junk = twin_of(s)
+        o.split_to(s, junk, 0.1 + (k % 8) / 10., energy_balance=st['eb'])
+    elif m == 'separate_out':
+        o = twin_of(s); o.imol.data *= 0.3; o.T = st['T']
+        s.separate_out(o, energy_balance=st['eb'])
+    elif m == 'isub':
+        o = twin_of(s); o.imol.data *= 0.25
+        s -= o
+    elif m == 'iadd':
+        o = perturbed_twin(s, st)
+        s += o
+    elif m == 'imul': s *= 0.5 + (k % 9) / 4.
+    elif m == 'idiv': s /= 0.5 + (k % 9) / 4.
+    elif m == 'receive_vent':
+        if multi or s.phase != 'g' or not s.F_mol: return False
+        o = tmo.Stream(None, Water=v, Ethanol=v / 3, T=st['T'], P=s.P, thermo=s._thermo)
+        s.receive_vent(o, energy_balance=st['eb'])
+    elif m == 'set_flow':
+        if multi: s.set_flow(v, 'kg/hr', (ph, i))
+        else: s.set_flow([v, v / 2], 'lb/hr', (i, IDS[(st['i'] + 1) % len(IDS)]))
+    elif m == 'set_total_flow':
+        if not s.F_mol: return False
+        s.set_total_flow(v, 'kg/hr')
+    elif m == 'F_mass=':
+        if not s.F_mol: return False
+        s.F_mass = v
+    elif m == 'F_vol=':
+        if not s.F_mol: return False
+        s.F_vol = v / 100.
+    elif m == 'reset_flow':
+        if multi: s.reset_flow(units='kg/hr', phases=s.phases, **{ph: [(i, v), ('Water', v / 2)]})
+        else: s.reset_flow(units='kg/hr', **{i: v, 'Methanol': v / 2})
+    elif m == 'empty_negative_flows':
+        if multi: s.imol[ph, i] = -v
+        else: s.imol[i] = -v
+        s.empty_negative_flows()
+    elif m in ('mol=', 'mol[:]='):
+        arr = np.array([v * ((j + k) % 3) for j in range(len(IDS))], float)
+        if multi: s.imol[ph] = arr
+        elif m == 'mol=': s.mol = arr
+        else: s.mol[:] = arr
+    elif m == 'tc.T=': s.thermal_condition.T = st['T']
+    elif m == 'tc.P=': s.thermal_condition.P = st['P']
+    elif m == 'temporary':
+        with s.temporary(T=st['T'], P=st['P']):
+            # a read inside the context is judged like any other read
+            tw = twin_of(s)
+            for p in ('H', 'V' if not multi else 'C'):
+                try: exp = value_of(tw, p)
+                except Exception: continue
+                got = value_of(s, p)
+                rec.check(equal(got, exp), 'fresh', f'self/inside-temporary/{"multi" if multi else "single"}', f'inside temporary(T={st["T"]}, P={st["P"]}): {p} = {got} but a freshly built stream gives {exp}')
+    elif m == 'temporary_phase':
+        if multi: return False
+        ph2 = 'g' if s.phase == 'l' else 'l'
+        with s.temporary_phase(ph2):
+            tw = twin_of(s)
+            exp = value_of(tw, 'H'); got = value_of(s, 'H')
+            rec.check(s.phase == ph2 and equal(got, exp), 'fresh', 'self/inside-temporary_phase/single', f'inside temporary_phase({ph2!r}): phase {s.phase!r}, H = {got} but a freshly built stream gives {exp}')
+    elif m == 'vle':
+        if not s.F_mol: return False
+        s.vle(V=0.2 + (k % 7) / 10., P=s.P)
+    elif m == 'lle':
+        if not s.F_mol: return False
+        s.lle(T=s.T, P=s.P)
+    else:
+        raise ValueError(m)
+    return True
+
+
 def run_case(case, rec):
     install_counter()
     rec.begin_case(case)
     th = thermo_of(IDS); th2 = thermo_of(PERM)
     s = build(case['start'], th)
     proxy = None; linked = None
+    fproxy = None; rev = False; snap = None
+    if case['start']['proxy_at'] is None: rec.hit('no-proxy-case')
     dirty = {}     # (reader, prop) -> mutated since last read
     mutated_since = 0
     def mark():
@@ -149,16 +305,18 @@ def run_case(case, rec):
         try:
             if t == 'read':
                 who = st['who']; p = st['p']
-                if multi and who in ('self', 'proxy', 'linked') and p not in MULTI_PROPS: p = MULTI_PROPS[st['k'] % len(MULTI_PROPS)]
+                if multi and who in ('self', 'proxy', 'linked') and p not in MULTI_PROPS and p not in MULTI_PROPS2: p = MULTI_PROPS[st['k'] % len(MULTI_PROPS)]
                 if who == 'proxy':
                     if proxy is None or type(proxy) is not type(s): who = 'self'
                 if who == 'linked' and linked is None: who = 'self'
                 if who == 'view' and not multi: who = 'self'
-                reader = {'self': s, 'proxy': proxy, 'linked': linked}.get(who)
+                if who == 'fproxy' and fproxy is None: who = 'self'
+                reader = {'self': s, 'proxy': proxy, 'linked': linked, 'fproxy': fproxy}.get(who)
                 if who == 'view':
                     ph = s.phases[st['k'] % len(s.phases)]
                     reader = s[ph]
-                    if p not in PROPS: p = 'H'
+                    if p not in PROPS and p not in PROPS2: p = 'H'
+                if who == 'fproxy' and isinstance(reader, tmo.MultiStream) and p not in MULTI_PROPS and p not in MULTI_PROPS2: p = 'H'
                 try:
                     tw = twin_of(reader)
                     exp = value_of(tw, p); terr = None
@@ -174,6 +332,8 @@ def run_case(case, rec):
                     rec.refuse(f'property {p} undefined for this state ({type(terr).__name__})'); continue
                 if gerr is not None:
                     rec.exception('fresh', gerr, what=f'step {k}: reading {p} on {who} raised {type(gerr).__name__}: {str(gerr)[:120]} but a fresh twin returns {exp}'); return
+                if exp is not None and np.any(np.isnan(np.asarray(exp, float))):
+                    rec.refuse(f'property {p} undefined (nan) on the fresh twin'); continue
                 state = {'reader': who, 'prop': p, 'T': reader.T, 'P': reader.P, 'phases': tuple(reader.phases) if isinstance(reader, tmo.MultiStream) else reader.phase}
                 rec.check(equal(got, exp), 'fresh', f'{who}/{"proxy-alive" if proxy is not None else "no-proxy"}/{"multi" if isinstance(reader, tmo.MultiStream) else "single"}',
                           f'step {k}: {who}.{p} = {np.asarray(got).tolist() if got is not None else None} but a freshly built stream with the same state gives {np.asarray(exp).tolist() if exp is not None else None} ({state})',
@@ -181,6 +341,9 @@ def run_case(case, rec):
                 rec.hit('reader:' + who)
                 rec.hit('memo-hit' if ncalls == 0 else 'recomputed')
                 if isinstance(reader, tmo.MultiStream): rec.hit('multi-phase')
+                if p in PROPS2: rec.hit('read:derived')
+                if isinstance(reader, tmo.MultiStream) and p in MULTI_PROPS2: rec.hit('read:multi-derived')
+                if not reader.F_mol: rec.hit('read:empty-state')
                 key = (who, p)
                 if dirty.get(key, False): rec.mark_nontrivial(case_hash((case['start'], case['steps'][:k + 1])))
                 dirty[key] = False
@@ -228,6 +391,7 @@ def run_case(case, rec):
             elif t == 'mix':
                 if linked is not None: continue
                 o = build(case['start'], s._thermo if s._thermo is th else th2) if False else tmo.Stream(None, Water=st['v'], Ethanol=st['v'] / 3, T=310, thermo=s._thermo)
+                fproxy = None
                 s.mix_from([s, o], energy_balance=False)
             elif t == 'link':
                 if linked is not None: continue
@@ -235,19 +399,122 @@ def run_case(case, rec):
                 linked.link_with(s, *case['start']['link_flags'])
             elif t == 'unlink':
                 if linked is None: continue
-                linked.unlink(); linked = None
+                if rev: s.unlink(); rev = False; linked = None; fproxy = None
+                else: linked.unlink(); linked = None
             elif t == 'package':
                 if linked is not None or proxy is not None: continue
+                fproxy = None
                 s._reset_thermo(th2 if s._thermo is th else th)
+                if k >= 6: rec.hit('late:package')
             elif t == 'phases':
                 if linked is not None or (proxy is not None): continue
                 have = {p for (p, c), v in phase_ledger(s).items() if v}
+                fproxy = None
                 s.phases = tuple(set(st['v']) | have)
+                if k >= 6: rec.hit('late:phases')
             elif t == 'refill':
                 if linked is not None: continue
                 s.empty()
                 if multi: s.imol[s.phases[0], IDS[st['i']]] = st['v']
                 else: s.imol[IDS[st['i']]] = st['v']
+            # ---------------- added steps
+            elif t == 'mut':
+                m = st['m']
+                if m in ('vle', 'lle', 'copy_like', 'reset_flow', 'temporary', 'receive_vent', 'split_to', 'iadd') and linked is not None: continue    # may change the class / phase set of one side of a link
+                if m in ('vle', 'lle', 'copy_like', 'reset_flow', 'temporary', 'receive_vent', 'split_to', 'iadd', 'copy_flow', 'separate_out', 'isub'): fproxy = None
+                try:
+                    if not apply_mutator(s, st, rec): continue
+                except PROGRAMMING_ERRORS: raise
+                except Exception as e:
+                    if m in SOLVER_MUTATORS: rec.refuse(f'{m} did not return normally ({type(e).__name__})')
+                    else: raise
+                else:
+                    rec.hit('mut:' + m)
+            elif t == 'mcomp':
+                if not multi: continue
+                rows = s.imol.data.rows
+                if st['form'] == 'swap-row':
+                    # composition-only change inside one phase: swap two entries of a row (totals unchanged)
+                    ph = s.phases[st['k'] % len(s.phases)]
+                    a, b = IDS[st['i']], IDS[(st['i'] + 1) % len(IDS)]
+                    x, y = s.imol[ph, a], s.imol[ph, b]
+                    s.imol[ph, a] = y; s.imol[ph, b] = x
+                    rec.hit('mcomp:swap-row')
+                else:
+                    # phase-only change: a chemical's flows are swapped between two phases (per-chemical and overall totals unchanged)
+                    p1 = s.phases[st['k'] % len(s.phases)]; p2 = s.phases[(st['k'] + 1) % len(s.phases)]
+                    a = IDS[st['i']]
+                    x, y = s.imol[p1, a], s.imol[p2, a]
+                    s.imol[p1, a] = y; s.imol[p2, a] = x
+                    rec.hit('mcomp:swap-phase')
+            elif t == 'collapse':
+                if not multi or linked is not None: continue
+                fproxy = None
+                s.phase = st['v']
+                rec.hit('collapse')
+            elif t == 'link-rev':
+                # the stream under test (with a populated memo) borrows the data of another stream; the other stream is then mutated / read as 'linked'
+                if linked is not None: continue
+                other = perturbed_twin(s, st)
+                fproxy = None
+                s.link_with(other, *st['flags'])
+                linked = other; rev = True
+                rec.hit('link-rev')
+            elif t == 'self-unlink':
+                fproxy = None
+                s.unlink()
+                if rev: rev = False; linked = None
+                rec.hit('self-unlink')
+            elif t == 'reset_cache':
+                s.reset_cache(); rec.hit('reset_cache')
+            elif t == 'mk-fproxy':
+                fproxy = s.flow_proxy()
+            elif t == 'drop-proxy':
+                proxy = None
+            elif t == 'empty':
+                s.empty(); rec.hit('empty')
+            elif t == 'scale0':
+                s.scale(0.); rec.hit('scale0')
+            elif t == 'fill':
+                # the start composition with another total
+                if multi:
+                    for p, row in zip(tmo.MultiStream(None, phases=tuple(case['start']['phases']), thermo=s._thermo).phases, case['start']['flows']):
+                        if p not in s.phases: continue
+                        for i, v in zip(IDS, row): s.imol[p, i] = v * st['v'] if v else 0.
+                else:
+                    for i, v in zip(IDS, case['start']['flows'][0]): s.imol[i] = v * st['v'] if v else 0.
+                rec.hit('fill')
+            elif t == 'view-mut':
+                if not multi: continue
+                view = s[s.phases[st['k'] % len(s.phases)]]
+                i = IDS[st['i']]; form = st['form']
+                if form == 'imass': view.imass[i] = st['v']
+                elif form == 'ivol': view.ivol[i] = st['v'] / 100.
+                elif form == 'scale': view.scale(st['v'] / 50.)
+                elif form == 'F_mol':
+                    if not view.F_mol: continue
+                    view.F_mol = st['v']
+                else: view.empty()
+                rec.hit('view-mut')
+            elif t == 'mixE':
+                if linked is not None: continue
+                o = tmo.Stream(None, Water=st['v'], Ethanol=st['v'] / 3, T=st['T'], thermo=s._thermo)
+                fproxy = None
+                try: s.mix_from([s, o], energy_balance=True)
+                except PROGRAMMING_ERRORS: raise
+                except Exception as e: rec.refuse(f'mixE did not return normally ({type(e).__name__})')
+                rec.hit('mixE')
+            elif t == 'snapshot':
+                snap = s.get_data()
+            elif t == 'restore':
+                if snap is None or linked is not None: continue
+                if snap._imol.chemicals is not s.chemicals: continue      # taken under the other property package
+                fproxy = None
+                s.set_data(snap)
+                rec.hit('restore')
+            if proxy is not None and proxy._imol is not s._imol:
+                # the added steps can replace the indexer of s (unlink, phase-set change, collapse, restore): the old proxy is then a separate stream, no longer a proxy of s
+                proxy = None; rec.hit('proxy-detached')
             mark()
         except Exception as e:
             rec.exception('mutation', e, what=f'step {k} {st} raised {type(e).__name__}: {str(e)[:150]}'); return
